@@ -100,7 +100,8 @@ def eval_line(ctx, cases):
         stream = unhx(c['stream'])
         segs = cuts_to_segments(stream, c['cuts'])
         try:
-            per_seg = impl_line_client(segs)
+            with ctx.guard(c, what='Line component (client mode)'):
+                per_seg = impl_line_client(segs)
         except Exception as e:  # the component must not fail on any bytes
             ctx.violate(c, f'line-exception({type(e).__name__})', f'Line raised {e!r}')
             per_seg = None
@@ -139,7 +140,8 @@ def eval_server(ctx, cases):
     for c in cases:
         reads = [(s, unhx(d)) for s, d in c['reads']]
         try:
-            res = impl_line_server(reads)
+            with ctx.guard(c, what='Line component (server mode)'):
+                res = impl_line_server(reads)
         except Exception as e:
             ctx.violate(c, f'line-exception({type(e).__name__})', f'Line (server mode) raised {e!r}')
             res = None
